@@ -110,14 +110,16 @@ func (t gtype) coq() string {
 }
 
 type gval struct {
-	code string
-	t    gtype
-	c    *big.Int // tUntyped
+	code  string
+	t     gtype
+	c     *big.Int // tUntyped
+	ascii bool     // see binding
 }
 
 type binding struct {
-	coq string
-	t   gtype
+	coq   string
+	t     gtype
+	ascii bool // tStr: bound to a literal whose bytes are all below 0x80; tU8: a byte taken from such a string
 }
 
 type fnEnv struct {
@@ -135,23 +137,31 @@ func (e *fnEnv) clone() *fnEnv {
 	return n
 }
 
+// fresh gives the next Coq name of a Go variable: name'k. The apostrophe cannot
+// occur in a Go identifier, so no Go variable (first_1 next to first, or one
+// called uadd, st, m64 ...) can capture a generated name or a prelude name.
 func (e *fnEnv) fresh(name string) string {
 	k := e.counter[name]
 	e.counter[name] = k + 1
-	base := name
-	switch base { // Gallina keywords and names used by the prelude
-	case "len", "end", "at", "in", "mod", "fun", "let", "fix", "as", "if", "then", "else", "return", "match", "with", "for", "where", "using", "cofix", "forall", "exists", "Type", "Set", "Prop":
-		base = base + "_"
+	return fmt.Sprintf("%s'%d", name, k)
+}
+
+// declare introduces a NEW Go variable (:=, var, range value, loop variable). A
+// name that is already in scope at any depth would shadow it in Go - the outer
+// variable is then NOT assigned - which this translator does not model: hard error.
+func (e *fnEnv) declare(n ast.Node, name string, t gtype) string {
+	if _, ok := e.vars[name]; ok {
+		e.g.fail(n, e.where, "`%s` is declared here but is already in scope: shadowing is outside the translated subset", name)
 	}
-	if k == 0 {
-		return base
+	if e.g.pkgConst(name) != nil {
+		e.g.fail(n, e.where, "`%s` is declared here but is a package constant: shadowing is outside the translated subset", name)
 	}
-	return fmt.Sprintf("%s_%d", base, k)
+	return e.bind(name, t)
 }
 
 func (e *fnEnv) bind(name string, t gtype) string {
 	c := e.fresh(name)
-	e.vars[name] = binding{c, t}
+	e.vars[name] = binding{coq: c, t: t}
 	return c
 }
 
@@ -291,9 +301,18 @@ func (g *idsFnGen) generate() string {
 		}
 		segs[k].stmts = append(segs[k].stmts, st)
 	}
-	if len(skipped) != 3 {
-		panic(fnErr{fmt.Sprintf("ids_fn: CUID: expected to skip exactly lastMutex.Lock(), defer lastMutex.Unlock(), now := time.Now(); skipped %q", skipped)})
+	for _, want := range []string{"lastMutex.Lock()", "defer lastMutex.Unlock()", "now := time.Now()"} {
+		n := 0
+		for _, got := range skipped {
+			if got == want {
+				n++
+			}
+		}
+		if n != 1 {
+			panic(fnErr{fmt.Sprintf("ids_fn: CUID: the statement `%s` must occur exactly once at the top level of the body (it is skipped here and pinned by Gen/CuidPos.v); found %d", want, n)})
+		}
 	}
+	g.stdImport("ids.go", "time")
 	if ret == nil || len(ret.Results) != 1 {
 		panic(fnErr{"ids_fn: CUID: no single-result return statement at the end"})
 	}
@@ -311,6 +330,34 @@ func (g *idsFnGen) generate() string {
 
 	b.WriteString(g.randomID(rid))
 	return b.String()
+}
+
+// stdImport: the file imports the standard package path under its own name.
+func (g *idsFnGen) stdImport(file, path string) {
+	f := g.p.files[file]
+	if f == nil {
+		panic(fnErr{"ids_fn: " + file + " not found"})
+	}
+	found := false
+	for _, im := range f.Imports {
+		ip, _ := strconv.Unquote(im.Path.Value)
+		name := ip
+		if i := strings.LastIndex(ip, "/"); i >= 0 {
+			name = ip[i+1:]
+		}
+		if im.Name != nil {
+			name = im.Name.Name
+		}
+		if name == path && ip != path {
+			panic(fnErr{fmt.Sprintf("ids_fn: %s: the name %s is an import of %q, not of the standard package", file, path, ip)})
+		}
+		if ip == path && im.Name == nil {
+			found = true
+		}
+	}
+	if !found {
+		panic(fnErr{fmt.Sprintf("ids_fn: %s does not import %q under its own name", file, path)})
+	}
 }
 
 func declNames(d *ast.DeclStmt) []string {
@@ -502,9 +549,8 @@ func (g *idsFnGen) randomID(rid *ast.FuncDecl) string {
 		panic(fnErr{"ids_fn: RandomID: chars := \"...\" or chars[...] not found"})
 	}
 	env := &fnEnv{g: g, vars: map[string]binding{}, counter: map[string]int{}, where: "gen_random_index"}
-	env.vars["chars"] = binding{"gen_random_chars", tStr}
-	env.bind("b0", tU8)
-	env.vars["b[0]"] = env.vars["b0"]
+	env.vars["chars"] = binding{coq: "gen_random_chars", t: tStr}
+	env.vars["b[0]"] = binding{coq: "b'0", t: tU8}
 	v := env.expr(idx)
 	if v.t == tUntyped {
 		g.fail(idx, "RandomID", "index is a constant")
@@ -512,7 +558,7 @@ func (g *idsFnGen) randomID(rid *ast.FuncDecl) string {
 	var b strings.Builder
 	b.WriteString("(* func RandomID: the alphabet and the index expression of chars[...], b[0] as parameter *)\n")
 	fmt.Fprintf(&b, "Definition gen_random_chars : list N := %s%%N.\n", coqBytes(lit))
-	fmt.Fprintf(&b, "Definition gen_random_index (b0 : N) : %s :=\n  %s.\n", v.t.coq(), v.code)
+	fmt.Fprintf(&b, "Definition gen_random_index (b'0 : N) : %s :=\n  %s.\n", v.t.coq(), v.code)
 	return b.String()
 }
 
@@ -545,7 +591,15 @@ func (e *fnEnv) assign(n ast.Node, name string, v gval, define bool) []string {
 		t = bd.t
 		v = e.convert(n, v, t)
 	}
-	c := e.bind(name, t)
+	var c string
+	if define {
+		c = e.declare(n, name, t)
+	} else {
+		c = e.bind(name, t)
+	}
+	bd := e.vars[name]
+	bd.ascii = v.ascii
+	e.vars[name] = bd
 	return []string{fmt.Sprintf("let %s := %s in", c, v.code)}
 }
 
@@ -603,7 +657,7 @@ func (e *fnEnv) stmt(st ast.Stmt) []string {
 		} else if t == tStr {
 			zero = "(@nil N)"
 		}
-		c := e.bind(vs.Names[0].Name, t)
+		c := e.declare(x, vs.Names[0].Name, t)
 		return []string{fmt.Sprintf("let %s := %s in", c, zero)}
 	case *ast.IfStmt:
 		if x.Init != nil {
@@ -655,6 +709,14 @@ func (e *fnEnv) stmt(st ast.Stmt) []string {
 		var stNames []string
 		for _, w := range ws {
 			stNames = append(stNames, be.bind(w, e.vars[w].t))
+		}
+		if _, ok := e.vars[v.Name]; ok || g.pkgConst(v.Name) != nil {
+			g.fail(x, e.where, "range variable `%s` is already in scope: shadowing is outside the translated subset", v.Name)
+		}
+		for _, a := range assignedNames(x.Body) {
+			if a == v.Name {
+				g.fail(x, e.where, "the loop body assigns the range variable `%s`: outside the translated subset", v.Name)
+			}
 		}
 		elem := be.bind(v.Name, tU8)
 		body := be.stmts(x.Body.List)
@@ -790,6 +852,9 @@ func (e *fnEnv) countedLoop(x *ast.ForStmt) int64 {
 	if !ok {
 		bad()
 	}
+	if _, ok := e.vars[iv.Name]; ok || g.pkgConst(iv.Name) != nil {
+		g.fail(x, e.where, "loop variable `%s` is already in scope: shadowing is outside the translated subset", iv.Name)
+	}
 	zero := e.expr(init.Rhs[0])
 	if zero.t != tUntyped || zero.c.Sign() != 0 {
 		bad()
@@ -898,12 +963,18 @@ func (e *fnEnv) expr(x ast.Expr) gval {
 			if err != nil {
 				g.fail(x, e.where, "string literal: %v", err)
 			}
-			return gval{code: coqBytes(s) + "%N", t: tStr}
+			ascii := true
+			for i := 0; i < len(s); i++ {
+				if s[i] >= 0x80 {
+					ascii = false
+				}
+			}
+			return gval{code: coqBytes(s) + "%N", t: tStr, ascii: ascii}
 		}
 		g.fail(x, e.where, "literal %s is outside the translated subset", x.Value)
 	case *ast.Ident:
 		if bd, ok := e.vars[x.Name]; ok {
-			return gval{code: bd.coq, t: bd.t}
+			return gval{code: bd.coq, t: bd.t, ascii: bd.ascii}
 		}
 		if ce := g.pkgConst(x.Name); ce != nil {
 			v := (&fnEnv{g: g, vars: map[string]binding{}, counter: map[string]int{}, where: e.where}).expr(ce)
@@ -950,11 +1021,11 @@ func (e *fnEnv) expr(x ast.Expr) gval {
 			if i.c.Sign() < 0 {
 				g.fail(x, e.where, "negative index")
 			}
-			return gval{code: fmt.Sprintf("(nth (N.to_nat %s) %s 0%%N)", nLit(i.c), s.code), t: tU8}
+			return gval{code: fmt.Sprintf("(nth (N.to_nat %s) %s 0%%N)", nLit(i.c), s.code), t: tU8, ascii: s.ascii && s.t == tStr}
 		case i.t.unsigned():
-			return gval{code: fmt.Sprintf("(nth (N.to_nat %s) %s 0%%N)", i.code, s.code), t: tU8}
+			return gval{code: fmt.Sprintf("(nth (N.to_nat %s) %s 0%%N)", i.code, s.code), t: tU8, ascii: s.ascii && s.t == tStr}
 		case i.t.signed():
-			return gval{code: fmt.Sprintf("(nth (Z.to_nat %s) %s 0%%N)", i.code, s.code), t: tU8}
+			return gval{code: fmt.Sprintf("(nth (Z.to_nat %s) %s 0%%N)", i.code, s.code), t: tU8, ascii: s.ascii && s.t == tStr}
 		}
 		g.fail(x, e.where, "index of type %s", i.t)
 	case *ast.CallExpr:
@@ -1006,6 +1077,10 @@ func (e *fnEnv) call(x *ast.CallExpr) gval {
 	case t == tStr:
 		if a.t != tU8 {
 			g.fail(x, e.where, "string(%s) is outside the translated subset (only string(b) for a byte b)", a.t)
+		}
+		// Go's string(b) is the UTF-8 encoding of the code point b: one byte only below 0x80
+		if !a.ascii {
+			g.fail(x, e.where, "string(b) for a byte that is not taken from a string literal with all bytes below 0x80 (Go would UTF-8-encode b >= 0x80 into two bytes) is outside the translated subset")
 		}
 		return gval{code: "[" + a.code + "]", t: tStr}
 	case a.t == tUntyped:
